@@ -10,7 +10,9 @@
 (*        magazine 1..8, page tens / units (hex nibbles), C6 subtitle flag,*)
 (*        C11 magazine serial, C12-C14 character set code                  *)
 (*   [k "row", mag, row, cells]       packet Y = row 1..24                 *)
-(*   "x26" "x28" "m29" "x30"          enhancement / service packets        *)
+(*   "x26" "x28" "m29" "x30"          enhancement / service packets;       *)
+(*        x28 (format 1) and m29 carry grp, the G0 / national option       *)
+(*        designation of their first triplet (0 = the default)             *)
 (*   "stuff" "nonsub" "badframe" "hamerr" "short" "overlong" "cut"         *)
 (*        stuffing, non-subtitle data unit, wrong framing code,            *)
 (*        uncorrectable Hamming error in the address, malformed units      *)
@@ -39,19 +41,20 @@ CellStep(s, c, cs) ==
     [] c.k = "col" -> Attr(s, "col", c.v)
     [] c.k = "dh" -> Attr(s, "dh", 2)
     [] c.k = "nh" -> Attr(s, "dh", 1)
-    [] c.k = "ch" -> IF s.on THEN [s EXCEPT !.t = Append(@, G0(cs, c.v))] ELSE s
+    [] c.k = "ch" -> IF s.on THEN [s EXCEPT !.t = Append(@, G0g(cs[2], cs[1], c.v))] ELSE s
     [] c.k = "sp" -> IF s.on THEN [s EXCEPT !.t = Append(@, {32})] ELSE s
     [] c.k = "parerr" -> s                     \* a character failing parity contributes no text
     [] OTHER -> s
 
 RECURSIVE RowFold(_, _, _)
 RowFold(s, cells, cs) == IF cells = <<>> THEN FlushRun(s).runs ELSE RowFold(CellStep(s, Head(cells), cs), Tail(cells), cs)
+\* cs = <<character-set code of the page header, designation group>>
 RowRuns(cells, cs) == RowFold(InitRow, cells, cs)
 HasParErr(cells) == \E i \in DOMAIN cells : cells[i].k = "parerr"
 
 ---------------------------------------------------------------------------
 (* page assembly *)
-InitDec == [sel |-> <<>>, recv |-> FALSE, cur |-> <<>>, done |-> <<>>]
+InitDec == [sel |-> <<>>, recv |-> FALSE, cur |-> <<>>, done |-> <<>>, x28 |-> -1, m29 |-> -1]
 
 Close(d, pts) == IF d.cur = <<>> THEN d ELSE [d EXCEPT !.done = Append(@, [d.cur[1] EXCEPT !.end = pts]), !.cur = <<>>]
 
@@ -67,7 +70,13 @@ UnitStep(d, u, pts, opt) ==
     IF d.recv /\ d.sel # <<>> /\ u.mag = d.sel[1] /\ u.row \in 1..24
     THEN [d EXCEPT !.cur = <<[d.cur[1] EXCEPT !.rows = Append(@, [row |-> u.row, cells |-> u.cells])]>>]
     ELSE d
+  \* character-set designation: X/28 belongs to the page being received, M/29 to the whole magazine
+  ELSE IF u.k = "x28" THEN (IF d.recv /\ d.sel # <<>> /\ u.mag = d.sel[1] THEN [d EXCEPT !.x28 = u.grp] ELSE d)
+  ELSE IF u.k = "m29" THEN (IF d.sel # <<>> /\ u.mag = d.sel[1] THEN [d EXCEPT !.m29 = u.grp] ELSE d)
   ELSE d
+\* the designation in force: the page's own (X/28) before the magazine's (M/29); the streams of the families carry at
+\* most one designation, so when it arrives relative to the rows it governs does not matter
+GrpOf(d) == IF d.x28 >= 0 THEN d.x28 ELSE IF d.m29 >= 0 THEN d.m29 ELSE 0
 
 RECURSIVE UnitsFold(_, _, _, _)
 UnitsFold(d, us, pts, opt) == IF us = <<>> THEN d ELSE UnitsFold(UnitStep(d, Head(us), pts, opt), Tail(us), pts, opt)
@@ -93,7 +102,7 @@ Expected(stream, opt) ==
            IN  [i \in DOMAIN insts |->
                   [s |-> ((insts[i].start - first) \div 90), e |-> ((insts[i].end - first) \div 90),
                    lines |-> SelectSeq([j \in DOMAIN SortRows(insts[i].rows) |->
-                                          [runs |-> RowRuns(SortRows(insts[i].rows)[j].cells, insts[i].cs),
+                                          [runs |-> RowRuns(SortRows(insts[i].rows)[j].cells, <<insts[i].cs, GrpOf(d1)>>),
                                            textonly |-> HasParErr(SortRows(insts[i].rows)[j].cells)]],
                                        LAMBDA ln : ln.runs # <<>>)]]
 
